@@ -306,6 +306,10 @@ class Alg:
             if isinstance(a, bool) and cb is not None:
                 r = (int(a) == cb)
                 return (r if pred == 'eq' else (not r) if pred == 'ne' else None, None)
+            if isinstance(a, (Cond, BoolOp)) and isinstance(b, (Cond, BoolOp)) and pred in ('ne', 'eq'):
+                # (p) != (q): exactly one of the two holds
+                x = BoolOp('or', [BoolOp('and', [a, negate(b)]), BoolOp('and', [negate(a), b])])
+                return (None, x if pred == 'ne' else negate(x))
             raise Unsupported('comparison of comparison results')
         a = sp.sympify(a)
         b = sp.sympify(b)
